@@ -113,6 +113,8 @@ type c12Case struct {
 	Named     bool   `json:"named"`
 	Validate  bool   `json:"validate"`
 	ExecFails bool   `json:"exec_fails"`
+	Pretty    bool   `json:"pretty"`
+	Second    string `json:"second"` // method of a second execution on the same executive builder, "" for none
 	Prog      string `json:"prog"`
 	RenderErr string `json:"render_err,omitempty"` // error of a fresh ToSQL with the same options
 	NCalls    int    `json:"ncalls"`
@@ -169,15 +171,20 @@ func runC12(out io.Writer, seed int64, n int, hostile float64) {
 					named := g.Rng.Intn(2) == 0
 					validate := g.Rng.Intn(4) != 0
 					execFails := g.Rng.Intn(5) == 0
+					pretty := g.Rng.Intn(3) == 0
+					second := ""
+					if g.Rng.Intn(2) == 0 {
+						second = []string{"Query", "QueryRow", "Exec"}[g.Rng.Intn(3)]
+					}
 					c := c12Case{ID: id, Adapter: adapter, Method: method, Path: path, Named: named, Validate: validate,
-						ExecFails: execFails, Prog: prog, Problems: []string{}}
+						ExecFails: execFails, Pretty: pretty, Second: second, Prog: prog, Problems: []string{}}
 					id++
 					runOneC12(&c, w, binds, g)
 					c.Dump = dumpText
 					if named {
-						c.Renders = []Render{render(w, validate, false, namedIDs)}
+						c.Renders = []Render{render(w, validate, pretty, namedIDs)}
 					} else {
-						c.Renders = []Render{render(w, validate, false, nil)}
+						c.Renders = []Render{render(w, validate, pretty, nil)}
 					}
 					enc.Encode(c)
 				}
@@ -201,15 +208,26 @@ func runOneC12(c *c12Case, w builder.SQLWriter, binds map[string]any, g *gen.Gen
 			c.Panic = fmt.Sprint(e)
 		}
 	}()
-	// reference: what ToSQL returns for the same query, options and named arguments
-	ref := builder.Build(w)
-	if !c.Validate {
-		ref = ref.WithoutValidation()
+	// own copy of the named arguments (mutated between the two executions of round 2)
+	named := map[string]any{}
+	for k, v := range binds {
+		named[k] = v
 	}
-	if c.Named {
-		ref = ref.WithNamedArgs(binds)
+	// reference: what a fresh ToSQL returns for the same query, options and (current) named arguments
+	fresh := func() (string, []any, error) {
+		ref := builder.Build(w)
+		if !c.Validate {
+			ref = ref.WithoutValidation()
+		}
+		if c.Pretty {
+			ref = ref.PrettyPrint()
+		}
+		if c.Named {
+			ref = ref.WithNamedArgs(named)
+		}
+		return ref.ToSQL()
 	}
-	wantSQL, wantArgs, wantErr := ref.ToSQL()
+	wantSQL, wantArgs, wantErr := fresh()
 	if wantErr != nil {
 		c.RenderErr = wantErr.Error()
 	}
@@ -217,9 +235,10 @@ func runOneC12(c *c12Case, w builder.SQLWriter, binds map[string]any, g *gen.Gen
 	c.NArgs = len(wantArgs)
 	ctx := context.WithValue(context.Background(), ctxKey{}, c.ID)
 
-	var calls []recorded
-	var gotErr error
-	var resultOK bool
+	// one executive builder, configured in a random order of the option methods
+	var calls *[]recorded
+	var run func(method string) (error, func(wantErr bool) bool)
+	order := g.Rng.Perm(3)
 	if c.Adapter == "pgx" {
 		stub := &pgxStub{rows: &stubRows{id: c.ID}, row: &stubRow{id: c.ID}, tag: pgconn.NewCommandTag(fmt.Sprintf("STUB %d", c.ID)), failing: c.ExecFails}
 		var eb *qrbpgx.ExecutiveQueryBuilder
@@ -228,27 +247,32 @@ func runOneC12(c *c12Case, w builder.SQLWriter, binds map[string]any, g *gen.Gen
 		} else {
 			eb = qrbpgx.NewExecutorBuilder(stub).Build(w)
 		}
-		if !c.Validate {
-			eb = eb.WithoutValidation()
+		for _, o := range order {
+			switch {
+			case o == 0 && !c.Validate:
+				eb = eb.WithoutValidation()
+			case o == 1 && c.Named:
+				eb = eb.WithNamedArgs(named)
+			case o == 2 && c.Pretty:
+				eb.PrettyPrint()
+			}
 		}
-		if c.Named {
-			eb = eb.WithNamedArgs(binds)
+		calls = &stub.calls
+		run = func(method string) (error, func(bool) bool) {
+			switch method {
+			case "Query":
+				r, err := eb.Query(ctx)
+				return err, func(we bool) bool { return (we && r == nil) || (!we && r == stub.rows) }
+			case "QueryRow":
+				r, err := eb.QueryRow(ctx)
+				return err, func(we bool) bool { return (we && r == nil) || (!we && r == stub.row) }
+			default:
+				r, err := eb.Exec(ctx)
+				return err, func(we bool) bool {
+					return (we && r.String() == "") || (!we && r.String() == stub.tag.String())
+				}
+			}
 		}
-		switch c.Method {
-		case "Query":
-			r, err := eb.Query(ctx)
-			gotErr = err
-			resultOK = (wantErr != nil && r == nil) || (wantErr == nil && r == stub.rows)
-		case "QueryRow":
-			r, err := eb.QueryRow(ctx)
-			gotErr = err
-			resultOK = (wantErr != nil && r == nil) || (wantErr == nil && r == stub.row)
-		default:
-			r, err := eb.Exec(ctx)
-			gotErr = err
-			resultOK = (wantErr != nil && r.String() == "") || (wantErr == nil && r.String() == stub.tag.String())
-		}
-		calls = stub.calls
 	} else {
 		stub := &sqlStub{rows: &sql.Rows{}, row: &sql.Row{}, res: stubResult{c.ID}, failing: c.ExecFails}
 		var eb *qrbsql.ExecutiveQueryBuilder
@@ -257,67 +281,93 @@ func runOneC12(c *c12Case, w builder.SQLWriter, binds map[string]any, g *gen.Gen
 		} else {
 			eb = qrbsql.NewExecutorBuilder(stub).Build(w)
 		}
-		if !c.Validate {
-			eb = eb.WithoutValidation()
+		for _, o := range order {
+			switch {
+			case o == 0 && !c.Validate:
+				eb = eb.WithoutValidation()
+			case o == 1 && c.Named:
+				eb = eb.WithNamedArgs(named)
+			case o == 2 && c.Pretty:
+				eb.PrettyPrint()
+			}
 		}
-		if c.Named {
-			eb = eb.WithNamedArgs(binds)
+		calls = &stub.calls
+		run = func(method string) (error, func(bool) bool) {
+			switch method {
+			case "Query":
+				r, err := eb.Query(ctx)
+				return err, func(we bool) bool { return (we && r == nil) || (!we && r == stub.rows) }
+			case "QueryRow":
+				r, err := eb.QueryRow(ctx)
+				return err, func(we bool) bool { return (we && r == nil) || (!we && r == stub.row) }
+			default:
+				r, err := eb.Exec(ctx)
+				return err, func(we bool) bool { return (we && r == nil) || (!we && r == stub.res) }
+			}
 		}
-		switch c.Method {
-		case "Query":
-			r, err := eb.Query(ctx)
-			gotErr = err
-			resultOK = (wantErr != nil && r == nil) || (wantErr == nil && r == stub.rows)
-		case "QueryRow":
-			r, err := eb.QueryRow(ctx)
-			gotErr = err
-			resultOK = (wantErr != nil && r == nil) || (wantErr == nil && r == stub.row)
-		default:
-			r, err := eb.Exec(ctx)
-			gotErr = err
-			resultOK = (wantErr != nil && r == nil) || (wantErr == nil && r == stub.res)
+	}
+
+	// round 1: the method of the case; round 2 (same executive builder): another method, after one named
+	// argument was given a new value in the caller's map
+	methods := []string{c.Method}
+	if c.Second != "" {
+		methods = append(methods, c.Second)
+	}
+	for round, method := range methods {
+		if round == 1 && c.Named {
+			for k := range named {
+				named[k] = pool[2+g.Rng.Intn(8)]
+				break
+			}
+			wantSQL, wantArgs, wantErr = fresh()
 		}
-		calls = stub.calls
-	}
-	c.NCalls = len(calls)
-	if wantErr != nil {
-		// C12: fail closed
-		if len(calls) != 0 {
-			c.Problems = append(c.Problems, fmt.Sprintf("C12: executor observed %d call(s) although rendering fails: %q", len(calls), calls[0].SQL))
+		before := len(*calls)
+		gotErr, resultOK := run(method)
+		now := (*calls)[before:]
+		tag := ""
+		if round == 1 {
+			tag = " (second execution of the same builder, " + method + ")"
 		}
-		sameMissing := gotErr != nil && strings.HasPrefix(gotErr.Error(), "missing named argument") &&
-			strings.HasPrefix(wantErr.Error(), "missing named argument") // which name is reported depends on map order
-		if gotErr == nil || (gotErr.Error() != wantErr.Error() && !sameMissing) {
-			c.Problems = append(c.Problems, fmt.Sprintf("C12: returned error %v, rendering error %v", gotErr, wantErr))
+		if wantErr != nil {
+			// C12: fail closed
+			if len(now) != 0 {
+				c.Problems = append(c.Problems, fmt.Sprintf("C12: executor observed %d call(s) although rendering fails%s: %q", len(now), tag, now[0].SQL))
+			}
+			sameMissing := gotErr != nil && strings.HasPrefix(gotErr.Error(), "missing named argument") &&
+				strings.HasPrefix(wantErr.Error(), "missing named argument") // which name is reported depends on map order
+			if gotErr == nil || (gotErr.Error() != wantErr.Error() && !sameMissing) {
+				c.Problems = append(c.Problems, fmt.Sprintf("C12: returned error %v, rendering error %v%s", gotErr, wantErr, tag))
+			}
+			if !resultOK(true) {
+				c.Problems = append(c.Problems, "C12: a non-zero result was returned together with the rendering error"+tag)
+			}
+			continue
 		}
-		if !resultOK {
-			c.Problems = append(c.Problems, "C12: a non-zero result was returned together with the rendering error")
+		// C13: forwarded exactly once, unchanged
+		if len(now) != 1 {
+			c.Problems = append(c.Problems, fmt.Sprintf("C13: executor observed %d calls%s", len(now), tag))
+			continue
 		}
-		return
+		call := now[0]
+		if call.Method != method {
+			c.Problems = append(c.Problems, "C13: executor method "+call.Method+" was called"+tag)
+		}
+		if call.Ctx != ctx {
+			c.Problems = append(c.Problems, "C13: the executor did not receive the caller's context"+tag)
+		}
+		if call.SQL != wantSQL {
+			c.Problems = append(c.Problems, fmt.Sprintf("C13: executor received sql %q, ToSQL returns %q%s", call.SQL, wantSQL, tag))
+		}
+		if len(call.Args) != len(wantArgs) || (len(wantArgs) > 0 && !reflect.DeepEqual(call.Args, wantArgs)) {
+			c.Problems = append(c.Problems, fmt.Sprintf("C13: executor received %d args %v, ToSQL returns %d args %v%s", len(call.Args), call.Args, len(wantArgs), wantArgs, tag))
+		}
+		if !resultOK(false) {
+			c.Problems = append(c.Problems, "C13: the executor's result was not returned unchanged"+tag)
+		}
+		wantExecErr := c.ExecFails && method != "QueryRow"
+		if wantExecErr != (gotErr != nil) || (gotErr != nil && gotErr != errSentinel) {
+			c.Problems = append(c.Problems, fmt.Sprintf("C13: the executor's error was not returned unchanged (got %v)%s", gotErr, tag))
+		}
 	}
-	// C13: forwarded exactly once, unchanged
-	if len(calls) != 1 {
-		c.Problems = append(c.Problems, fmt.Sprintf("C13: executor observed %d calls", len(calls)))
-		return
-	}
-	call := calls[0]
-	if call.Method != c.Method {
-		c.Problems = append(c.Problems, "C13: executor method "+call.Method+" was called")
-	}
-	if call.Ctx != ctx {
-		c.Problems = append(c.Problems, "C13: the executor did not receive the caller's context")
-	}
-	if call.SQL != wantSQL {
-		c.Problems = append(c.Problems, fmt.Sprintf("C13: executor received sql %q, ToSQL returns %q", call.SQL, wantSQL))
-	}
-	if len(call.Args) != len(wantArgs) || (len(wantArgs) > 0 && !reflect.DeepEqual(call.Args, wantArgs)) {
-		c.Problems = append(c.Problems, fmt.Sprintf("C13: executor received %d args %v, ToSQL returns %d args %v", len(call.Args), call.Args, len(wantArgs), wantArgs))
-	}
-	if !resultOK {
-		c.Problems = append(c.Problems, "C13: the executor's result was not returned unchanged")
-	}
-	wantExecErr := c.ExecFails && c.Method != "QueryRow"
-	if wantExecErr != (gotErr != nil) || (gotErr != nil && gotErr != errSentinel) {
-		c.Problems = append(c.Problems, fmt.Sprintf("C13: the executor's error was not returned unchanged (got %v)", gotErr))
-	}
+	c.NCalls = len(*calls)
 }
